@@ -5,6 +5,8 @@ import (
 	"encoding/json"
 	"errors"
 	"fmt"
+	"os"
+	"path/filepath"
 	"sort"
 	"strings"
 	"syscall"
@@ -191,6 +193,9 @@ func genGen(t *rapid.T, i, total int) Gen {
 		if len(g.AtRunning) > 1 && rapid.Bool().Draw(t, lb("swap")) {
 			g.AtRunning[0], g.AtRunning[len(g.AtRunning)-1] = g.AtRunning[len(g.AtRunning)-1], g.AtRunning[0]
 		}
+	} else if pct(t, lb("fatal"), 12) {
+		// an asynchronous component error, alone (anything else at the same moment is the listed hang shape)
+		g.AtRunning = []Act{{K: "fatal", N: uni(t, lb("fatal-c"), 5)}}
 	} else {
 		g.AtRunning = genActs(t, lb("at-running"), runningKinds, 3)
 	}
@@ -408,12 +413,21 @@ func (d *driver) fire(where string, gen int, acts []Act, paused bool, self strin
 			case "sighup":
 				d.triggers++
 				d.hupOut = true
-			case "sigint":
-				d.sentInt, d.stop = true, stopSure
+			case "sigint", "sigterm":
+				if a.K == "sigint" {
+					d.sentInt = true
+				} else {
+					d.sentTerm = true
+				}
 				d.stopKinds["signal"] = true
-			case "sigterm":
-				d.sentTerm, d.stop = true, stopSure
-				d.stopKinds["signal"] = true
+				if d.lossy && evidence {
+					// re-sent SIGHUPs may still sit in the collector's 3-slot channel: this one could be dropped
+					if d.stop < stopMaybe {
+						d.stop = stopMaybe
+					}
+				} else {
+					d.stop = stopSure
+				}
 			}
 			if !sendSignal(sig) {
 				d.note(vt.Failf("harness/signal-not-dispatched", "signal %v sent to the own pid was not observed", sig))
@@ -429,6 +443,9 @@ func (d *driver) fire(where string, gen int, acts []Act, paused bool, self strin
 				d.stopKinds["shutdown"] = true
 			case stable:
 				d.c.Class("shutdown-call-in-state:" + st.String() + "(no-op)")
+				if paused && !final && st == otelcol.StateClosing {
+					d.c.Class("shutdown-call-inside-reload-closing-window(ignored,allowed)")
+				}
 			default:
 				if d.stop < stopMaybe {
 					d.stop = stopMaybe
@@ -548,7 +565,7 @@ func (d *driver) drive(limit time.Duration) (finished bool, stuck string) {
 			d.fire("in-"+p.phase, p.gen, acts, true, p.id)
 			close(p.release)
 		case <-deadline:
-			return false, fmt.Sprintf("state %v, stop fired %v (%d), pending triggers %d, fired %v", d.col.GetState(), d.stopKinds, d.stop, d.pending(), d.fired)
+			return false, fmt.Sprintf("state %v, stop fired %v (%d), pending triggers %d, fired %v%s", d.col.GetState(), d.stopKinds, d.stop, d.pending(), d.fired, fmtLog(d.w.snapshot(), -1))
 		case <-tick.C:
 			now := time.Now()
 			// GetState() sample: a known state, and Closed is final
@@ -969,14 +986,28 @@ func run(c *vt.C) func(Script) (bool, string, *vt.Finding) {
 				_, stacks = vt.WithWatchdog(time.Millisecond, func() { select {} })
 			}
 			sig := hangSig(stacks)
-			msg := fmt.Sprintf("Collector.Run did not return within %v: %s%s", limit, stuck, fmtLog(w.snapshot(), -1))
+			if !ok {
+				stuck = "the driver itself is stuck" + fmtLog(w.snapshot(), -1)
+			}
+			msg := fmt.Sprintf("Collector.Run did not return within %v: %s", limit, stuck)
 			if vt.IsChild() {
 				// the parent reads the signature from the fail file
 				close(w.abandoned)
 				return true, key, vt.Failf(sig, "%s", msg)
 			}
-			c.Note("%s", msg)
-			c.HangGuard(time.Millisecond, s, sig, func() { select {} }) // dumps the script and exits 4
+			// a hung Run cannot be stopped: record, dump, leave (what vt.HangGuard does, with our own message)
+			hf := vt.Failf(sig, "%s", msg)
+			if c.IsKnown(sig) {
+				c.Report(hf, s)
+				c.Inconclusive("listed non-terminating shape %s reached the in-process pass (should be excluded by construction)", sig)
+			} else {
+				c.Violation(hf, s)
+			}
+			if out := os.Getenv("VT_OUT"); out != "" {
+				_ = os.WriteFile(filepath.Join(out, "hang-stacks.txt"), []byte(stacks), 0o644)
+			}
+			vt.FlushAll()
+			os.Exit(4)
 		}
 		// Shutdown() after Run returned: no panic, no state change
 		before := col.GetState()
@@ -1002,5 +1033,5 @@ func run(c *vt.C) func(Script) (bool, string, *vt.Finding) {
 func init() { cRun.ReplayRepeat = 20 }
 
 func TestRunLoop(t *testing.T) {
-	vt.Run(t, cRun, vt.N(16000, 1000000), gen, run(cRun))
+	vt.Run(t, cRun, vt.N(12000, 600000), gen, run(cRun))
 }
